@@ -295,10 +295,8 @@ func (w *World) bytesOf(name string) []byte {
 		return v
 	}
 	switch name {
-	case "SHORT":
-		return []byte{1, 2, 3}
-	case "LONG33":
-		return make([]byte, 33)
+	case "SHORT", "LONG33":
+		return wrongLen(name)
 	}
 	return []byte(name)
 }
